@@ -17,6 +17,8 @@ def strict_equal(a, b):
     if isinstance(a, (list, tuple)):
         return len(a) == len(b) and all(strict_equal(x, y)
                                         for x, y in zip(a, b))
+    if isinstance(a, float) and a != a:
+        return b != b          # NaN denotes the same value as NaN
     return a == b
 
 
